@@ -221,6 +221,58 @@ def writer_pipelines():
                    f"def {lean} : Pipeline :=\n  {{ base := .{ 'partialEscape' if m.group(1) == 'partial_escape' else 'escape' }, steps := {lean_steps(steps)} }}\n")
     return "\n".join(out)
 
+def driver_shape():
+    """tag-level structure of writer/driver.rs: which quick-xml event under which flag, raw writes, the new-line literal"""
+    src = strip_comments(open(os.path.join(REPO, "src/writer/driver.rs")).read())
+    def one(fn, rx, what):
+        body = fn_body(src, fn)
+        m = re.search(rx, body, re.S)
+        if not m: raise ValueError(f"{fn}: {what} not of the expected form")
+        return body, m
+    # write_start_tag
+    body, m = one("write_start_tag",
+                  r"if\s+empty_flag\s*\{\s*writer\s*\.\s*write_event\(\s*Event::(\w+)\(elem\)\s*\)\s*;?\s*\}\s*else\s*\{\s*writer\s*\.\s*write_event\(\s*Event::(\w+)\(elem\)\s*\)\s*;?\s*\}",
+                  "the empty_flag branch")
+    ev_empty, ev_else = m.group(1), m.group(2)
+    if len(re.findall(r"write_event\s*\(", body)) != 2 or re.search(r"get_mut|\.write\s*\(|write_all|push_str|push\s*\(", body):
+        raise ValueError("write_start_tag: writes other than the two events")
+    if not re.search(r"BytesStart::from_content\(\s*tag_name\s*,\s*len\s*\)", body) or not re.search(r"let\s+len\s*=\s*tag_name\.len\(\)", body):
+        raise ValueError("write_start_tag: element is not BytesStart::from_content(tag_name, tag_name.len())")
+    loop = re.search(r"for\s*\(\s*key\s*,\s*value\s*\)\s*in\s+attributes\s*\{(.*?)\n    \}", body, re.S)
+    if not loop: raise ValueError("write_start_tag: attribute loop")
+    lb = loop.group(1)
+    escaped = bool(re.search(r"let\s+value\s*=\s*escape\(\s*value\s*\)", lb)) and \
+        bool(re.search(r"elem\.push_attribute\(\(\s*key\.as_bytes\(\)\s*,\s*value\.as_bytes\(\)\s*\)\)\s*;\s*$", lb.strip(), re.S)) and \
+        len(re.findall(r"push_attribute|extend_attributes|with_attributes", body)) == 1 and len(statements(lb)) == 2
+    if not escaped: raise ValueError("write_start_tag: attribute loop is not `let value = escape(value)…; elem.push_attribute((key, value))`")
+    # write_end_tag
+    body, m = one("write_end_tag", r"^\s*writer\s*\.\s*write_event\(\s*Event::(\w+)\(\s*BytesEnd::new\(\s*tag_name\.into\(\)\s*\)\s*\)\s*\)\s*;\s*$", "body")
+    ev_end = m.group(1)
+    # write_text_node
+    body, m = one("write_text_node", r"writer\s*\.\s*write_event\(\s*Event::(\w+)\(\s*BytesText::(\w+)\(\s*escaped\s*\)\s*\)\s*\)\s*;\s*$", "the event")
+    ev_text, ctor = m.group(1), m.group(2)
+    if len(statements(body)) != 2 or not re.search(r"^\s*let\s+escaped\s*=\s*escape\(\s*data\.into\(\)\s*\)", body):
+        raise ValueError("write_text_node: not `let escaped = escape(data.into())…; write_event(…)`")
+    # write_text_node_no_escape
+    body = fn_body(src, "write_text_node_no_escape")
+    raw = re.sub(r"\s+", "", body) == "writer.get_mut().write(data.into().as_bytes());"
+    if not raw: raise ValueError("write_text_node_no_escape: not a raw write of the bytes")
+    # write_text_node_conversion
+    body, m = one("write_text_node_conversion", r"^\s*(\w+)\(\s*writer\s*,\s*partial_escape\(\s*data\.into\(\)\s*\)", "body")
+    via_conv = m.group(1)
+    if len(statements(body)) != 1: raise ValueError("write_text_node_conversion: more than one statement")
+    # write_new_line
+    body, m = one("write_new_line", r"^\s*(\w+)\(\s*writer\s*,\s*" + STR + r"\s*\)\s*;\s*$", "body")
+    via_nl, lit = m.group(1), lit_value(m)
+    b = lambda x: "true" if x else "false"
+    return ("/-- translated from `src/writer/driver.rs`: the tag-level structure of `write_start_tag`, `write_end_tag`, `write_text_node`,\n"
+            "    `write_text_node_no_escape`, `write_text_node_conversion`, `write_new_line` -/\n"
+            "def driver_shape : DriverShape :=\n"
+            f"  {{ startTagWhenEmpty := {lean_str(ev_empty)}, startTagOtherwise := {lean_str(ev_else)}, attrValueIsEscaped := {b(escaped)},\n"
+            f"    endTag := {lean_str(ev_end)}, textNodeEvent := {lean_str(ev_text)}, textNodeCtor := {lean_str(ctor)},\n"
+            f"    conversionVia := {lean_str(via_conv)}, noEscapeIsRawWrite := {b(raw)},\n"
+            f"    newLineVia := {lean_str(via_nl)}, newLineLiteral := {lean_str(lit)} }}\n")
+
 def reader_pipelines():
     src = strip_comments(open(os.path.join(REPO, "src/reader/driver.rs")).read())
     out = []
@@ -235,7 +287,8 @@ def reader_pipelines():
     return "\n".join(out)
 
 ITEMS = [("builtin_format_codes", builtin_formats), ("formula_errors", formula_errors), ("date_format_replacements", date_tables),
-         ("cell_error_display", cell_errors), ("write_start_tag_escape", writer_pipelines), ("unescape_text_normalise", reader_pipelines)]
+         ("cell_error_display", cell_errors), ("write_start_tag_escape", writer_pipelines), ("unescape_text_normalise", reader_pipelines),
+         ("driver_shape", driver_shape)]
 
 HEADER = ("/-\n  GENERATED by tools/extract_tables.py from the current source of /repo — do not edit.\n"
           "  Constant tables and escape / normalisation pipelines the hand model copies.\n-/\n"
